@@ -17,7 +17,7 @@ ENCODINGS = [  # (label, cookie line or None, python codec)
 
 def findings_of_json(out):
     data = json.loads(out)
-    return sorted((r["test_id"], r["issue_severity"], r["issue_confidence"], r["line_number"], tuple(r["line_range"]), r["col_offset"]) for r in data["results"]), data["errors"]
+    return sorted((r["test_id"], r["issue_severity"], r["issue_confidence"], r["line_number"], tuple(r["line_range"]), r["col_offset"], r["issue_text"]) for r in data["results"]), data["errors"]
 
 
 def scan_file(scratch, data: bytes):
@@ -67,6 +67,12 @@ def run(res, ctx):
         for pi in range(n_prog):
             src, _ = progs.make_program(rng, k=rng.randint(3, 6))
             src += "name = 'café ü'\nlabel = 'résumé'  # accenté\n"
+            # non-ASCII text BEFORE a flagged node on the same line (columns), inside a literal quoted in the issue text, and characters whose UTF-8
+            # bytes a legacy codec cannot decode (seeded change C19-m2: stdin source transcoded to UTF-8 while the cookie stayed)
+            src += rng.choice(["import os\nt = ('é', 'ü'); os.system(cmd + 'ß')\n", "import subprocess\nd = {'clé': subprocess.Popen('ls Á', shell=True)}\n",
+                               "import pickle\nr = ['Í', pickle.loads(blob), 'Ý']\n"])
+            src += rng.choice(["password = 'sécret'\n", "token = 'ÁÍÝ'\n", "def f(password='Ïð'): pass\n", "cfg['secret'] = 'niño'\n"])
+            src += "é_var = eval('1')  # Ð\n"
             ref = None
             for label, raw in variants(src):
                 for chan in ("file", "stdin"):
@@ -95,7 +101,10 @@ def run(res, ctx):
         # ---- (2) bidi characters everywhere
         positions = [("comment", "x = 1  # note {c}hidden\ny = 2\n", 1), ("string", "x = 1\ns = 'ab{c}cd'\n", 2), ("identifier-adjacent", "x = 1\nvalue = call({c!s}) if False else 0\n".replace("{c!s}", "'{c}'"), 2),
                      ("first-line", "# {c}\nx = 1\n", 1), ("last-line-no-newline", "x = 1\n# end {c}", 2), ("docstring", '"""doc {c} text"""\nx = 1\n', 1),
-                     ("two-chars-one-line", "x = 1  # ⁩ then {c}\n", 1)]
+                     ("two-chars-one-line", "x = 1  # ⁩ then {c}\n", 1),
+                     # characters str.splitlines() treats as line ends but Python's parser does not (seeded change C10-m2)
+                     ("after-formfeed-line", "x = 1\n\x0c\ny = 2  # {c}\n", 3), ("after-u2028-in-string", "s = 'a\u2028b'\ny = 2  # {c}\n", 2),
+                     ("after-vt-fs-nel-u2029", "s = 'a\x0bb\x1cc\x85d\u2029e\x1d\x1e'\n# {c}\n", 2), ("formfeed-same-line", "\x0cx = 1  # {c}\n", 1)]
         chars = BIDI if thorough else rng.sample(BIDI, 4)
         reqs, expect = [], []
         for ch in chars:
